@@ -36,9 +36,10 @@ db_height`, so the refresh that makes the flip visible reports at the new chain'
 no chain change: `_process_mempool` touches the parent's script hashes only.  No faithful daemon does
 that — `SimDaemon.mp_evict` evicts descendants as well — so it is an assumption, not a finding.)
 
-`Flags` default (`{}`) is the current code; `{checkCount := false}` (F5), `{batch := true}` (F15),
-`{recheck := false}` (no second loop: the shape of seeded change C07-1) are refuted below;
-`{cmpLive := true}` is the proposed fix of the stale-copy comparison (`C07_counterexample_stale_copy`).
+`Flags` default (`{}`) is the current code; the pinned earlier behaviours `{checkCount := false}` (F5),
+`{batch := true}` (F15), `{recheck := false}` (no second loop: the shape of seeded change C07-1),
+`{cmpLive := false}` (stale-copy comparison, fixed in ee7f7d3) and `{raiseOnRace := true}` (the raising
+`_refresh_hsub_results`) are refuted below.
 
 All theorems quantify over *every* event list (any interleaving of confirmed / mempool changes,
 parent flips, blocks, back-outs, reorg signals, notifications, subscribes, unsubscribes, session
@@ -51,7 +52,8 @@ namespace EV.System
 hash `hx` it is subscribed to, one of:
  * a recomputation of `(s, hx)` is pending inside a running `_notify_inner` (`Pending`);
  * a full recomputation for every subscriber is owed (`Owed`: still carried, or handed to a
-   `_notify_sessions` call suspended in its header read, or lost for good — `lost`, `suppressed`);
+   `_notify_sessions` call suspended in its header read; the ghost sets `lost` / `suppressed` that
+   `Owed` also mentions are empty for the current code: `C07_fixed`);
  * the status the client last received has the current confirmed version and either both it and the
    truth have no mempool part, or `mempool_statuses` records exactly that status and its mempool
    part is current, or a re-check is owed (`OwedF`: a flip awaiting its height-changing
@@ -69,7 +71,9 @@ reply or a later notification — is the protocol status of the current chain an
 theorem C07_converge (n m : Nat) (evs : List Ev) (hq : Quiet (run {} (init n m) evs)) :
     ∀ s hx, aliveOf (run {} (init n m) evs) s = true → hx ∈ subsOf (run {} (init n m) evs) s →
       heldOf (run {} (init n m) evs) s hx = some (curOf (run {} (init n m) evs) hx) :=
-  (quiescent_current _ (inv_run _ evs (inv_init n m)) hq).1
+  (quiescent_current _ (inv_run _ evs (inv_init n m)) hq
+    (fix_run {} rfl rfl rfl rfl rfl _ evs (inv_init n m) (fixInv_init n m)).nolost
+    (fix_run {} rfl rfl rfl rfl rfl _ evs (inv_init n m) (fixInv_init n m)).nosupp).1
 
 /-- **C07 (tip).**  In every quiescent state `hsub_results` is the current tip (height and header),
 `notified_height` is the DB height, and the last header every connected headers-subscriber received
@@ -105,23 +109,16 @@ theorem C07_queryable (f : Flags) (n m : Nat) (evs : List Ev) (p : Nat × Nat)
   · exact h.hsubSeen
   · exact h.heldSeen s p hs
 
-/-- **C07 under the proposed fix.**  With the second loop comparing against the live
-`mempool_statuses` value, nothing is ever suppressed, `mempool_statuses` only records statuses the
-client holds, and convergence needs no `suppressed = []` hypothesis. -/
+/-- **Nothing is lost or suppressed by the current code.**  In every reachable state: no notification
+has been lost by `_refresh_hsub_results` raising (it always reads again), no needed send has been hidden
+by the second loop's comparison, and `mempool_statuses` records only statuses the client holds.  (This
+is why `Quiet` need not mention the ghost sets `lost` and `suppressed`.) -/
 theorem C07_fixed (n m : Nat) (evs : List Ev) :
-    (run {cmpLive := true} (init n m) evs).suppressed = [] ∧
-    (∀ s x v, lookup x (msOf (run {cmpLive := true} (init n m) evs) s) = some v →
-      heldOf (run {cmpLive := true} (init n m) evs) s x = some v) ∧
-    ((run {cmpLive := true} (init n m) evs).carrier = [] → (run {cmpLive := true} (init n m) evs).flipped = [] →
-     (run {cmpLive := true} (init n m) evs).lost = [] → (run {cmpLive := true} (init n m) evs).hreads = [] →
-     (run {cmpLive := true} (init n m) evs).tasks = [] → (run {cmpLive := true} (init n m) evs).tipDone = true →
-      ∀ s hx, aliveOf (run {cmpLive := true} (init n m) evs) s = true →
-        hx ∈ subsOf (run {cmpLive := true} (init n m) evs) s →
-        heldOf (run {cmpLive := true} (init n m) evs) s hx = some (curOf (run {cmpLive := true} (init n m) evs) hx)) := by
-  have hI := inv_run_flags {cmpLive := true} rfl rfl rfl _ evs (inv_init n m)
-  have hF := fix_run {cmpLive := true} rfl rfl rfl rfl _ evs (inv_init n m) (fixInv_init n m)
-  exact ⟨hF.nosupp, hF.msHeld, fun h1 h2 h3 h4 h5 h6 =>
-    (quiescent_current _ hI ⟨h1, h2, h3, hF.nosupp, h4, h5, h6⟩).1⟩
+    (run {} (init n m) evs).suppressed = [] ∧ (run {} (init n m) evs).lost = [] ∧
+    (∀ s x v, lookup x (msOf (run {} (init n m) evs) s) = some v →
+      heldOf (run {} (init n m) evs) s x = some v) := by
+  have hF := fix_run {} rfl rfl rfl rfl rfl _ evs (inv_init n m) (fixInv_init n m)
+  exact ⟨hF.nosupp, hF.nolost, hF.msHeld⟩
 
 /-! ### non-vacuity -/
 
@@ -259,42 +256,65 @@ def exStaleCopy : List Ev :=
    .flip 0 2, .subscribe 0 0, .flip 0 1, .readDo 0, .readFinish 0,
    .reorgSignal, .notify 1 [], .hdrDo 0, .hdrFinish 0]
 
-/-- **C07 fails for the pinned second-loop comparison (finding: stale copy).**  At the end of
+/-- **C07 fails for the pinned second-loop comparison (stale copy; fixed in ee7f7d3).**  At the end of
 `exStaleCopy` nothing is carried, flipped, lost or in flight and the tip has been notified, yet the
 client holds `(0,2)` while the protocol status is `(0,1)`; the ghost set `suppressed` records the
 two comparisons that hid it. -/
 theorem C07_counterexample_stale_copy :
-    (run {} (init 1 2) exStaleCopy).carrier = [] ∧ (run {} (init 1 2) exStaleCopy).tasks = [] ∧
-    (run {} (init 1 2) exStaleCopy).flipped = [] ∧ (run {} (init 1 2) exStaleCopy).lost = [] ∧
-    (run {} (init 1 2) exStaleCopy).hreads = [] ∧ (run {} (init 1 2) exStaleCopy).tipDone = true ∧
-    (run {} (init 1 2) exStaleCopy).suppressed = [0, 0] ∧
-    aliveOf (run {} (init 1 2) exStaleCopy) 0 = true ∧ 0 ∈ subsOf (run {} (init 1 2) exStaleCopy) 0 ∧
-    heldOf (run {} (init 1 2) exStaleCopy) 0 0 = some (0, 2) ∧
+    (run {cmpLive := false} (init 1 2) exStaleCopy).carrier = [] ∧ (run {cmpLive := false} (init 1 2) exStaleCopy).tasks = [] ∧
+    (run {cmpLive := false} (init 1 2) exStaleCopy).flipped = [] ∧ (run {cmpLive := false} (init 1 2) exStaleCopy).lost = [] ∧
+    (run {cmpLive := false} (init 1 2) exStaleCopy).hreads = [] ∧ (run {cmpLive := false} (init 1 2) exStaleCopy).tipDone = true ∧
+    (run {cmpLive := false} (init 1 2) exStaleCopy).suppressed = [0, 0] ∧
+    aliveOf (run {cmpLive := false} (init 1 2) exStaleCopy) 0 = true ∧ 0 ∈ subsOf (run {cmpLive := false} (init 1 2) exStaleCopy) 0 ∧
+    heldOf (run {cmpLive := false} (init 1 2) exStaleCopy) 0 0 = some (0, 2) ∧
+    curOf (run {cmpLive := false} (init 1 2) exStaleCopy) 0 = (0, 1) := by
+  decide +kernel
+
+/-- the same schedule on the current code: the resumed loop compares with the live value `(0,2)`,
+sends `(0,1)`, and the state is quiescent with the current status -/
+example : (run {} (init 1 2) exStaleCopy).carrier = [] ∧
+    (run {} (init 1 2) exStaleCopy).tasks = [] ∧
+    (run {} (init 1 2) exStaleCopy).flipped = [] ∧
+    (run {} (init 1 2) exStaleCopy).hreads = [] ∧
+    (run {} (init 1 2) exStaleCopy).tipDone = true ∧
+    heldOf (run {} (init 1 2) exStaleCopy) 0 0 = some (0, 1) ∧
     curOf (run {} (init 1 2) exStaleCopy) 0 = (0, 1) := by
   decide +kernel
 
-/-- the same schedule under the proposed fix: the resumed loop compares with the live value `(0,2)`,
-sends `(0,1)`, and the state is quiescent with the current status -/
-example : (run {cmpLive := true} (init 1 2) exStaleCopy).carrier = [] ∧
-    (run {cmpLive := true} (init 1 2) exStaleCopy).tasks = [] ∧
-    (run {cmpLive := true} (init 1 2) exStaleCopy).flipped = [] ∧
-    (run {cmpLive := true} (init 1 2) exStaleCopy).hreads = [] ∧
-    (run {cmpLive := true} (init 1 2) exStaleCopy).suppressed = [] ∧
-    heldOf (run {cmpLive := true} (init 1 2) exStaleCopy) 0 0 = some (0, 1) ∧
-    curOf (run {cmpLive := true} (init 1 2) exStaleCopy) 0 = (0, 1) := by
-  decide +kernel
-
-/-- F16 follow-up: the DB is lowered while the header is read (IndexError) and is back at that height
-when the error reaches `_refresh_hsub_results`: `if height <= self.db.state.height: raise`.  The
-notification — its touched set `[0]` — is lost (`lost`), and the client keeps version 0. -/
+/-- The raising refresh.  The DB is lowered while the header is read (IndexError) and is back at that
+height when the error reaches `_refresh_hsub_results`; the pinned code then did
+`if height <= self.db.state.height: raise`. -/
 def exRaised : List Ev :=
   [.subscribe 0 0, .readDo 0, .readFinish 0, .advance 1, .change 0, .notify 1 [0],
    .backup, .hdrDo 0, .advance 2, .hdrFinish 0]
 
+/-- **C07 fails when `_refresh_hsub_results` raises on that race.**  The `_notify_sessions` call — its
+touched set `[0]` — is lost (`lost`; in the server the exception also kills the calling task: the
+mempool refresh or the block processor): nothing is carried or in flight any more, and the client
+keeps version 0 of a history whose version is 1. -/
 theorem C07_counterexample_refresh_raised :
-    (run {} (init 1 2) exRaised).lost = [0] ∧ (run {} (init 1 2) exRaised).carrier = [] ∧
-    (run {} (init 1 2) exRaised).tasks = [] ∧ (run {} (init 1 2) exRaised).hreads = [] ∧
-    heldOf (run {} (init 1 2) exRaised) 0 0 = some (0, 0) ∧ curOf (run {} (init 1 2) exRaised) 0 = (1, 0) := by
+    (run {raiseOnRace := true} (init 1 2) exRaised).lost = [0] ∧
+    (run {raiseOnRace := true} (init 1 2) exRaised).carrier = [] ∧
+    (run {raiseOnRace := true} (init 1 2) exRaised).flipped = [] ∧
+    (run {raiseOnRace := true} (init 1 2) exRaised).tasks = [] ∧
+    (run {raiseOnRace := true} (init 1 2) exRaised).hreads = [] ∧
+    aliveOf (run {raiseOnRace := true} (init 1 2) exRaised) 0 = true ∧
+    0 ∈ subsOf (run {raiseOnRace := true} (init 1 2) exRaised) 0 ∧
+    heldOf (run {raiseOnRace := true} (init 1 2) exRaised) 0 0 = some (0, 0) ∧
+    curOf (run {raiseOnRace := true} (init 1 2) exRaised) 0 = (1, 0) := by
+  decide +kernel
+
+/-- the same schedule on the current code: the header is read again at the clamped height; once that
+read and the recomputation it releases are through, the client holds version 1 and `hsub_results` is
+the block the DB holds at height 1 -/
+example : (run {} (init 1 2) exRaised).hreads = [⟨1, none, [0], []⟩] ∧
+    (run {} (init 1 2) exRaised).lost = [] ∧
+    (run {} (init 1 2) (exRaised ++ [.hdrDo 0, .hdrFinish 0, .readDo 0, .readFinish 0])).hreads = [] ∧
+    (run {} (init 1 2) (exRaised ++ [.hdrDo 0, .hdrFinish 0, .readDo 0, .readFinish 0])).tasks = [] ∧
+    (run {} (init 1 2) (exRaised ++ [.hdrDo 0, .hdrFinish 0, .readDo 0, .readFinish 0])).carrier = [] ∧
+    (run {} (init 1 2) (exRaised ++ [.hdrDo 0, .hdrFinish 0, .readDo 0, .readFinish 0])).hsub = (1, 2) ∧
+    heldOf (run {} (init 1 2) (exRaised ++ [.hdrDo 0, .hdrFinish 0, .readDo 0, .readFinish 0])) 0 0 = some (1, 0) ∧
+    curOf (run {} (init 1 2) (exRaised ++ [.hdrDo 0, .hdrFinish 0, .readDo 0, .readFinish 0])) 0 = (1, 0) := by
   decide +kernel
 
 /-- the hypothesis `tipDone` of `C07_tip` is needed: two `_notify_sessions` calls for different
